@@ -443,6 +443,168 @@ static int run_codegen(uint64_t seed, int threads, uint32_t programs) {
   return 0;
 }
 
+// ---------------------------------------------------------------------------------------------------------------- instruction sweep
+// C01/C02-style sweep, in process: for EVERY instruction id of the x86 and AArch64 backends and a fixed menu of operand tuples:
+// InstAPI::validate, query_rw_info, query_features, inst_id_to_string / string_to_inst_id round trip, Formatter::format_instruction and
+// the assembler's _emit into a private holder. Everything that is table driven (instruction DB, name tables, RW tables, signature
+// tables, formatter tables) is read by all threads at once; the digest of all answers must equal the single-threaded one.
+static uint64_t sweep_slice(uint32_t slice, uint32_t slices) {
+  uint64_t h = 0xcbf29ce484222325ull;
+  // ---- x86-64
+  {
+    CodeHolder code; code.init(Environment(Arch::kX64));
+    x86::Assembler a(&code);
+    const Operand none;
+    const Operand menu[][3] = {
+      { none, none, none }, { x86::eax, none, none }, { x86::rax, x86::rbx, none }, { x86::eax, x86::ecx, none }, { x86::ax, x86::dx, none },
+      { x86::al, x86::cl, none }, { x86::rax, Imm(7), none }, { x86::eax, x86::dword_ptr(x86::rbx, 16), none }, { x86::dword_ptr(x86::rbx, 16), x86::eax, none },
+      { x86::xmm1, x86::xmm2, none }, { x86::xmm1, x86::xmm2, x86::xmm3 }, { x86::ymm1, x86::ymm2, x86::ymm3 }, { x86::zmm1, x86::zmm2, x86::zmm3 },
+      { x86::xmm1, x86::xmmword_ptr(x86::rsi), none }, { x86::ymm1, x86::ymm2, x86::ymmword_ptr(x86::rsi, x86::rdi, 2, 64) },
+      { x86::xmm1, x86::xmm2, Imm(3) }, { x86::k1, x86::k2, x86::k3 }, { x86::rax, x86::rbx, x86::rcx }, { x86::st0, x86::st1, none }, { x86::mm1, x86::mm2, none },
+      { x86::qword_ptr(x86::rsp, 8), none, none }, { Imm(16), none, none },
+    };
+    for (uint32_t id = 1 + slice; id < x86::Inst::_kIdCount; id += slices) {
+      String name;
+      InstAPI::inst_id_to_string(Arch::kX64, id, InstStringifyOptions::kNone, name);
+      InstId back = InstAPI::string_to_inst_id(Arch::kX64, name.data(), name.size());
+      h = fnv(name.data(), name.size(), h); h = fnv(&back, sizeof(back), h);
+      for (const auto& ops : menu) {
+        size_t n = ops[2].is_none() ? (ops[1].is_none() ? (ops[0].is_none() ? 0 : 1) : 2) : 3;
+        BaseInst inst(id);
+        Error ev = InstAPI::validate(Arch::kX64, inst, ops, n);
+        h = fnv(&ev, sizeof(ev), h);
+        if (ev != Error::kOk) continue;
+        InstRWInfo rw; CpuFeatures feat;
+        Error e1 = InstAPI::query_rw_info(Arch::kX64, inst, ops, n, &rw);
+        Error e2 = InstAPI::query_features(Arch::kX64, inst, ops, n, &feat);
+        h = fnv(&e1, sizeof(e1), h); h = fnv(&e2, sizeof(e2), h);
+        if (e1 == Error::kOk) { uint32_t oc = uint32_t(rw.op_count()); h = fnv(&oc, 4, h); for (uint32_t k = 0; k < oc; k++) { uint64_t x = uint64_t(rw.operand(k).op_flags()); h = fnv(&x, 8, h); } }
+        if (e2 == Error::kOk) h = fnv(&feat, sizeof(feat), h);
+        String text;
+        Formatter::format_instruction(text, FormatFlags::kMachineCode, &a, Arch::kX64, inst, Span<const Operand_>(ops, n));
+        h = fnv(text.data(), text.size(), h);
+        size_t before = a.offset();
+        Operand ext[3];
+        Error ee = a._emit(id, ops[0], ops[1], ops[2], ext);
+        h = fnv(&ee, sizeof(ee), h);
+        if (ee == Error::kOk) h = fnv(code.text_section()->buffer().data() + before, a.offset() - before, h);
+        if (a.offset() > (1u << 20)) { code.reset(ResetPolicy::kSoft); code.init(Environment(Arch::kX64)); code.attach(&a); }
+      }
+    }
+  }
+  // ---- AArch64
+  {
+    CodeHolder code; code.init(Environment(Arch::kAArch64));
+    a64::Assembler a(&code);
+    const Operand none;
+    const Operand menu[][4] = {
+      { none, none, none, none }, { a64::x1, none, none, none }, { a64::x1, a64::x2, none, none }, { a64::w1, a64::w2, none, none }, { a64::x1, a64::x2, a64::x3, none },
+      { a64::w1, a64::w2, a64::w3, none }, { a64::x1, a64::x2, Imm(12), none }, { a64::x1, Imm(4096), none, none }, { a64::x1, a64::ptr(a64::x2, 16), none, none },
+      { a64::x1, a64::x2, a64::ptr(a64::sp, 32), none }, { a64::v1.s4(), a64::v2.s4(), a64::v3.s4(), none }, { a64::v1.b16(), a64::v2.b16(), none, none },
+      { a64::d1, a64::d2, a64::d3, none }, { a64::s1, a64::s2, none, none }, { a64::x1, a64::x2, a64::x3, a64::x4 }, { a64::v1.d2(), a64::ptr(a64::x0), none, none },
+      { a64::w1, a64::w2, Imm(3), Imm(5) }, { Imm(0), none, none, none },
+    };
+    for (uint32_t id = 1 + slice; id < a64::Inst::_kIdCount; id += slices) {
+      String name;
+      InstAPI::inst_id_to_string(Arch::kAArch64, id, InstStringifyOptions::kNone, name);
+      InstId back = InstAPI::string_to_inst_id(Arch::kAArch64, name.data(), name.size());
+      h = fnv(name.data(), name.size(), h); h = fnv(&back, sizeof(back), h);
+      for (const auto& ops : menu) {
+        size_t n = 0; while (n < 4 && !ops[n].is_none()) n++;
+        BaseInst inst(id);
+        Error ev = InstAPI::validate(Arch::kAArch64, inst, ops, n);
+        h = fnv(&ev, sizeof(ev), h);
+        InstRWInfo rw;
+        Error e1 = InstAPI::query_rw_info(Arch::kAArch64, inst, ops, n, &rw);
+        h = fnv(&e1, sizeof(e1), h);
+        String text;
+        Formatter::format_instruction(text, FormatFlags::kNone, &a, Arch::kAArch64, inst, Span<const Operand_>(ops, n));
+        h = fnv(text.data(), text.size(), h);
+        size_t before = a.offset();
+        Operand ext[3]; ext[0] = ops[3];
+        Error ee = a._emit(id, ops[0], ops[1], ops[2], ext);
+        h = fnv(&ee, sizeof(ee), h);
+        if (ee == Error::kOk) h = fnv(code.text_section()->buffer().data() + before, a.offset() - before, h);
+        if (a.offset() > (1u << 20)) { code.reset(ResetPolicy::kSoft); code.init(Environment(Arch::kAArch64)); code.attach(&a); }
+      }
+    }
+  }
+  return h;
+}
+
+static int run_sweep(uint64_t seed, int threads, uint32_t slices) {
+  if (slices == 0) slices = 1;
+  std::vector<uint64_t> ref(slices);
+  for (uint32_t s = 0; s < slices; s++) ref[s] = sweep_slice(s, slices);           // single-threaded reference
+  std::vector<std::vector<uint64_t>> got((size_t)threads, std::vector<uint64_t>(slices));
+  std::vector<std::thread> th;
+  for (int t = 0; t < threads; t++) th.emplace_back([&, t] {
+    for (uint32_t k = 0; k < slices; k++) { uint32_t s = (k + uint32_t(t) + uint32_t(seed)) % slices; got[size_t(t)][s] = sweep_slice(s, slices); }
+  });
+  for (auto& t : th) t.join();
+  uint64_t h = 0xcbf29ce484222325ull;
+  for (uint32_t s = 0; s < slices; s++) {
+    h = fnv(&ref[s], 8, h);
+    for (int t = 0; t < threads; t++) if (got[size_t(t)][s] != ref[s]) mismatch(fmt("sweep slice %u/%u: thread %d computed different answers than the single-threaded run", s, slices, t));
+  }
+  printf("%s sweep seed=%llu threads=%d slices=%u x86_ids=%u a64_ids=%u digest=%016llx\n", g_mismatches.empty() ? "OK" : "MISMATCH",
+         (unsigned long long)seed, threads, slices, unsigned(x86::Inst::_kIdCount) - 1, unsigned(a64::Inst::_kIdCount) - 1, (unsigned long long)h);
+  return 0;
+}
+
+// ---------------------------------------------------------------------------------------------------------------- several shared runtimes
+// K JitRuntimes with DIFFERENT custom allocator parameters (options, granularity, block size, fill pattern) shared by all threads;
+// every operation picks one of them. Checks that nothing is shared between runtimes except the process-wide caches.
+static int run_multirt(uint64_t seed, int threads, uint32_t ops, uint32_t k_runtimes) {
+#if ASMJIT_ARCH_X86 == 64
+  if (k_runtimes < 2) k_runtimes = 2;
+  std::vector<JitRuntime*> rts;
+  for (uint32_t k = 0; k < k_runtimes; k++) {
+    JitAllocator::CreateParams p;
+    static const uint32_t optmenu[] = { 0, 2, 4 | 0x10000000u, 8, 1, 16 | 2 };
+    p.options = JitAllocatorOptions(optmenu[k % 6]);
+    p.granularity = 64u << (k % 3); p.block_size = 65536u << (k % 4); p.fill_pattern = 0x11111111u * (k + 1);
+    rts.push_back(new JitRuntime(&p));
+  }
+  struct LF { Fn fn; uint32_t value; uint32_t rt; };
+  std::vector<std::vector<LF>> live((size_t)threads);
+  std::vector<std::thread> th;
+  for (int t = 0; t < threads; t++) th.emplace_back([&, t] {
+    Rng rng(seed * 911 + uint64_t(t));
+    std::vector<LF>& mine = live[size_t(t)];
+    for (uint32_t op = 0; op < ops; op++) {
+      if (rng.below(100) < 60 || mine.empty()) {
+        uint32_t k = rng.below(k_runtimes);
+        CodeHolder code; code.init(rts[k]->environment(), rts[k]->cpu_features());
+        x86::Assembler a(&code);
+        uint32_t value = uint32_t(rng.next());
+        a.mov(x86::eax, value); for (uint32_t i = 0, n = rng.below(30); i < n; i++) a.nop(); a.ret();
+        Fn fn = nullptr;
+        if (rts[k]->add(&fn, &code) != Error::kOk || !fn) { mismatch(fmt("t%d multirt: add failed", t)); continue; }
+        JitAllocator::Span q;
+        if (rts[k]->allocator().query(Out(q), (void*)fn) != Error::kOk) mismatch(fmt("t%d multirt: own function unknown to its runtime", t));
+        for (uint32_t o = 0; o < k_runtimes; o++) if (o != k && rts[o]->allocator().query(Out(q), (void*)fn) == Error::kOk) mismatch(fmt("t%d multirt: function known to a foreign runtime", t));
+        mine.push_back({fn, value, k});
+      } else {
+        size_t i = rng.below(uint32_t(mine.size()));
+        if (mine[i].fn() != mine[i].value) mismatch(fmt("t%d multirt: own function clobbered", t));
+        if (rng.below(2)) { if (rts[mine[i].rt]->release(mine[i].fn) != Error::kOk) mismatch(fmt("t%d multirt: release failed", t)); mine[i] = mine.back(); mine.pop_back(); }
+      }
+    }
+  });
+  for (auto& t : th) t.join();
+  std::vector<size_t> cnt(k_runtimes, 0); size_t total = 0;
+  for (auto& v : live) for (auto& l : v) { cnt[l.rt]++; total++; if (l.fn() != l.value) mismatch("final: multirt function clobbered"); }
+  for (uint32_t k = 0; k < k_runtimes; k++) if (rts[k]->allocator().statistics().allocation_count() != cnt[k]) mismatch(fmt("final: runtime %u allocation_count %zu != live %zu", k, rts[k]->allocator().statistics().allocation_count(), cnt[k]));
+  for (auto& v : live) for (auto& l : v) rts[l.rt]->release(l.fn);
+  for (auto* r : rts) delete r;
+  printf("%s multirt seed=%llu threads=%d ops=%u runtimes=%u live_at_end=%zu\n", g_mismatches.empty() ? "OK" : "MISMATCH", (unsigned long long)seed, threads, ops, k_runtimes, total);
+#else
+  printf("OK multirt skipped (host is not x86-64)\n");
+#endif
+  return 0;
+}
+
 // ---------------------------------------------------------------------------------------------------------------- own runtime per thread
 // Every thread constructs, uses and destroys its OWN JitRuntime / JitAllocator again and again (host information already initialised):
 // the only state the threads share are the process-wide caches (VirtMem::info, large_page_size, hardened-runtime flags, dual-mapping
@@ -521,6 +683,8 @@ int main(int argc, char** argv) {
   else if (mode == "runtime") run_runtime(seed, threads, ops, opt);
   else if (mode == "codegen") run_codegen(seed, threads, ops);
   else if (mode == "ownrt") run_ownrt(seed, threads, ops, opt);
+  else if (mode == "sweep") run_sweep(seed, threads, ops);
+  else if (mode == "multirt") run_multirt(seed, threads, ops, opt);
   else return 2;
   for (auto& m : g_mismatches) printf("DETAIL %s\n", m.c_str());
   fflush(stdout);
